@@ -47,7 +47,7 @@ type Runner struct {
 // harnessFiles returns the overlay: every /verif/harness/*.go as /repo/zz_verif_<name>,
 // plus package-internal hook files /verif/harness/pkg/<dir...>/<name>.go as
 // /repo/<dir...>/zz_verif_<name>.go, plus generated files.
-func collectOverlay(generated map[string][]byte, only []string) (map[string]string, map[string][]byte, error) {
+func collectOverlay(generated map[string][]byte, only []string, hooks []string) (map[string]string, map[string][]byte, error) {
 	virt := map[string]string{}
 	content := map[string][]byte{}
 	hdir := filepath.Join(verifDir, "harness")
@@ -81,6 +81,15 @@ func collectOverlay(generated map[string][]byte, only []string) (map[string]stri
 			return nil
 		}
 		rel, _ := filepath.Rel(pdir, p)
+		wanted := false
+		for _, h := range hooks {
+			if filepath.Dir(rel) == h || h == "*" {
+				wanted = true
+			}
+		}
+		if !wanted {
+			return nil
+		}
 		v := filepath.Join(repoDir, filepath.Dir(rel), "zz_verif_"+filepath.Base(rel))
 		virt[v] = p
 		return nil
@@ -98,13 +107,14 @@ func collectOverlay(generated map[string][]byte, only []string) (map[string]stri
 	return virt, content, nil
 }
 
-func NewRunner(tag string, generated map[string][]byte, only []string) (*Runner, error) {
+// hooks: the package-internal accessor directories (under harness/pkg) the harness files need.
+func NewRunner(tag string, generated map[string][]byte, only []string, hooks ...string) (*Runner, error) {
 	r := &Runner{}
 	r.WorkDir = filepath.Join(outDir, "work", fmt.Sprintf("%s-%d", tag, os.Getpid()))
 	if err := os.MkdirAll(r.WorkDir, 0o755); err != nil {
 		return nil, err
 	}
-	virt, content, err := collectOverlay(generated, only)
+	virt, content, err := collectOverlay(generated, only, hooks)
 	if err != nil {
 		return nil, err
 	}
